@@ -118,6 +118,18 @@ b *
 a
 """, [S(["b k1", "b k1 v2"], [S(["c v1", "c v2"]), S(["d k1"]), S(["n k1"], [S(["c v1"])])]), S(["a", "a v1"])])
 
+fam("F8", """
+node *
+nonegotiate
+notify ~
+undox *
+undock
+b *
+    noise *
+    undone
+""", [S(["node a"]), S(["nonegotiate"]), S(["notify g syslog"]), S(["undox k"]), S(["undock"]),
+      S(["b k1"], [S(["noise n"]), S(["undone"])])])
+
 BLOCK_VENDORS = ["huawei", "cisco", "nexus", "iosxr", "arista", "aruba", "b4com", "h3c", "optixtrans", "pc"]
 
 FAM = os.environ.get("VT_FAM", "F1a")
@@ -351,7 +363,7 @@ def plan(tier):
                         bound="symbolic key/value strings len<=%d" % (2 if q else 3)))
     fams = [("F1a", "huawei", 12), ("F1b", "cisco", 10), ("F2", "huawei", 8), ("F3", "huawei,cisco", 6),
             ("F4", "huawei,iosxr", 4), ("F5", "huawei,arista", 4), ("F6", "huawei", 6),
-            ("F7", "huawei,cisco,pc" if q else ",".join(BLOCK_VENDORS), 12)]
+            ("F7", "huawei,cisco,pc" if q else ",".join(BLOCK_VENDORS), 12), ("F8", "huawei,cisco", 6)]
     for (f, vendors, shards) in fams:
         if not q:
             shards *= 3
